@@ -17,7 +17,7 @@ pub struct C02;
 fn gen_buffers(r: &mut Rng, seed: u64) -> Case {
     const KEYS: &[&str] = &["a", "b", "c", "d", "e", "f", "g", "h", "i", "j", "k", "l", "m", "n", "o", "p", "q", "r", "s", "t", "u", "v", "w", "x", "y", "z", "1", "2", "3", "4", "5", "6", "7", "8", "9", "0"];
     let mut case = Case { prop: "C02".into(), seed, ..Default::default() };
-    let kind = *r.pick(&["wide-chord-v2", "wide-chord-v2", "wide-chord-v1", "oneshot-mods", "macros", "layers", "tapholds", "switch-depth", "degenerate", "degenerate", "accumulators"]);
+    let kind = *r.pick(&["wide-chord-v2", "wide-chord-v2", "wide-chord-v1", "oneshot-mods", "macros", "layers", "tapholds", "switch-depth", "degenerate", "degenerate", "accumulators", "many-active-chords"]);
     case.set("population", "mapped");
     case.set("buffers", kind);
     case.set("mode", if r.chance(500) { "blocking" } else { "ticking" });
@@ -121,6 +121,37 @@ fn gen_buffers(r: &mut Rng, seed: u64) -> Case {
             for k in down {
                 ops.push(Op::Release(code(k)));
                 ops.push(Op::Gap(1));
+            }
+            ops.push(Op::Gap(700));
+        }
+        "many-active-chords" => {
+            // more chords active at the same time than chords v2 keeps track of (10): 9-14 disjoint
+            // two-key chords formed one after the other and all held, or one chord formed again and
+            // again without its keys ever being released
+            let n = r.range(9, 14) as usize;
+            let keys = &KEYS[..2 * n];
+            let ents: Vec<String> = (0..n).map(|i| format!("({} {}) {} 100 {} ()", keys[2 * i], keys[2 * i + 1], ["x", "y", "z", "w"][i % 4], *r.pick(&["first-release", "all-released"]))).collect();
+            case.cfg = format!("(defcfg concurrent-tap-hold yes)\n(defsrc {})\n(deflayer l0 {})\n(defchordsv2 {})\n", keys.join(" "), keys.join(" "), ents.join(" "));
+            if r.chance(500) {
+                for i in 0..n {
+                    ops.push(Op::Press(code(keys[2 * i])));
+                    ops.push(Op::Press(code(keys[2 * i + 1])));
+                    ops.push(Op::Gap(*r.pick(&[5u32, 20, 120])));
+                }
+                let mut rel: Vec<&str> = keys.to_vec();
+                r.shuffle(&mut rel);
+                for k in rel {
+                    ops.push(Op::Release(code(k)));
+                    ops.push(Op::Gap(*r.pick(&[0u32, 0, 1, 5])));
+                }
+            } else {
+                for _ in 0..r.range(9, 14) {
+                    ops.push(Op::Press(code(keys[0])));
+                    ops.push(Op::Press(code(keys[1])));
+                    ops.push(Op::Gap(20));
+                }
+                ops.push(Op::Release(code(keys[0])));
+                ops.push(Op::Release(code(keys[1])));
             }
             ops.push(Op::Gap(700));
         }
